@@ -4,6 +4,7 @@ Every message handler and every hook step preserves the money invariant (C01).
 -/
 namespace Hub.Model
 open Hub.SDK
+variable {σ : Tbl Denom Int}
 open Hub.Generated (Status AmountForBytes GetProportionOfCoin Gigabyte)
 
 /-- The part of the state `MoneyInv` reads. -/
@@ -16,13 +17,13 @@ structure MoneyView where
 
 def view (s : State) : MoneyView := ⟨s.bank, s.supply, s.deposits, s.planActive, s.planInactive⟩
 
-theorem MoneyInv.of_view {s s' : State} (h : view s' = view s) (hi : MoneyInv s) : MoneyInv s' := by
+theorem MoneyInv.of_view {s s' : State} (h : view s' = view s) (hi : MoneyInv σ s) : MoneyInv σ s' := by
   have hb : s'.bank = s.bank := congrArg MoneyView.bank h
   have hs : s'.supply = s.supply := congrArg MoneyView.supply h
   have hd : s'.deposits = s.deposits := congrArg MoneyView.deposits h
   have hpa : s'.planActive = s.planActive := congrArg MoneyView.planActive h
   have hpi : s'.planInactive = s.planInactive := congrArg MoneyView.planInactive h
-  refine ⟨?_, ?_, ?_, ?_, ?_, ?_⟩
+  refine ⟨?_, ?_, ?_, ?_, ?_, ?_, hs.trans hi.supplyEq⟩
   · intro d
     have := hi.backed d
     unfold balance totalDeposits at *
@@ -54,52 +55,52 @@ theorem setNode_view {s s' : State} {n : Node} (h : setNode s n = .ok s') : view
   split at h <;> simp only [pure_eq_ok, gopanic_ne_ok] at h <;> (try subst h) <;> first | rfl | contradiction
 
 /-- the zero-coin short-circuit wrappers -/
-theorem fundCommunityPool_inv {s s' : State} {f : Addr} {c : Coin} (h : fundCommunityPool s f c = .ok s') (hi : MoneyInv s)
-    (hf : f ≠ depositAddr) : MoneyInv s' ∧ MoneyFrame s s' := by
+theorem fundCommunityPool_inv {s s' : State} {f : Addr} {c : Coin} (h : fundCommunityPool s f c = .ok s') (hi : MoneyInv σ s)
+    (hf : f ≠ depositAddr) : MoneyInv σ s' ∧ MoneyFrame s s' := by
   unfold fundCommunityPool at h
   split at h
   · rw [pure_eq_ok] at h; subst h; exact ⟨hi, rfl⟩
   · exact ⟨sendCoins_inv h hi hf (by decide), sendCoins_frame h⟩
 
-theorem addDeposit_inv {s s' : State} {a : Addr} {c : Coin} (h : addDeposit s a c = .ok s') (hi : MoneyInv s)
-    (ha : a ≠ depositAddr) : MoneyInv s' ∧ MoneyFrame s s' := by
+theorem addDeposit_inv {s s' : State} {a : Addr} {c : Coin} (h : addDeposit s a c = .ok s') (hi : MoneyInv σ s)
+    (ha : a ≠ depositAddr) : MoneyInv σ s' ∧ MoneyFrame s s' := by
   unfold addDeposit at h
   split at h
   · rw [pure_eq_ok] at h; subst h; exact ⟨hi, rfl⟩
   · exact depositAdd_inv h hi ha
 
-theorem subtractDeposit_inv {s s' : State} {a : Addr} {c : Coin} (h : subtractDeposit s a c = .ok s') (hi : MoneyInv s) :
-    MoneyInv s' ∧ MoneyFrame s s' := by
+theorem subtractDeposit_inv {s s' : State} {a : Addr} {c : Coin} (h : subtractDeposit s a c = .ok s') (hi : MoneyInv σ s) :
+    MoneyInv σ s' ∧ MoneyFrame s s' := by
   unfold subtractDeposit at h
   split at h
   · rw [pure_eq_ok] at h; subst h; exact ⟨hi, rfl⟩
   · exact depositToAccount_inv h hi
 
 theorem sendCoinFromDepositToAccount_inv {s s' : State} {f t : Addr} {c : Coin}
-    (h : sendCoinFromDepositToAccount s f t c = .ok s') (hi : MoneyInv s) : MoneyInv s' ∧ MoneyFrame s s' := by
+    (h : sendCoinFromDepositToAccount s f t c = .ok s') (hi : MoneyInv σ s) : MoneyInv σ s' ∧ MoneyFrame s s' := by
   unfold sendCoinFromDepositToAccount at h
   split at h
   · rw [pure_eq_ok] at h; subst h; exact ⟨hi, rfl⟩
   · exact depositToAccount_inv h hi
 
 theorem sendCoinFromDepositToModule_inv {s s' : State} {f m : Addr} {c : Coin}
-    (h : sendCoinFromDepositToModule s f m c = .ok s') (hi : MoneyInv s) (hm : m ≠ depositAddr) :
-    MoneyInv s' ∧ MoneyFrame s s' := by
+    (h : sendCoinFromDepositToModule s f m c = .ok s') (hi : MoneyInv σ s) (hm : m ≠ depositAddr) :
+    MoneyInv σ s' ∧ MoneyFrame s s' := by
   unfold sendCoinFromDepositToModule at h
   split at h
   · rw [pure_eq_ok] at h; subst h; exact ⟨hi, rfl⟩
   · exact depositToModule_inv h hi hm
 
-theorem sendCoin_inv {s s' : State} {f t : Addr} {c : Coin} (h : sendCoin s f t c = .ok s') (hi : MoneyInv s)
-    (hf : f ≠ depositAddr) (ht : t ≠ depositAddr) : MoneyInv s' ∧ MoneyFrame s s' := by
+theorem sendCoin_inv {s s' : State} {f t : Addr} {c : Coin} (h : sendCoin s f t c = .ok s') (hi : MoneyInv σ s)
+    (hf : f ≠ depositAddr) (ht : t ≠ depositAddr) : MoneyInv σ s' ∧ MoneyFrame s s' := by
   unfold sendCoin at h
   split at h
   · rw [pure_eq_ok] at h; subst h; exact ⟨hi, rfl⟩
   · exact ⟨sendCoins_inv h hi hf ht, sendCoins_frame h⟩
 
 theorem sendCoinFromAccountToModule_inv {s s' : State} {f m : Addr} {c : Coin}
-    (h : sendCoinFromAccountToModule s f m c = .ok s') (hi : MoneyInv s) (hf : f ≠ depositAddr) (hm : m ≠ depositAddr) :
-    MoneyInv s' ∧ MoneyFrame s s' := by
+    (h : sendCoinFromAccountToModule s f m c = .ok s') (hi : MoneyInv σ s) (hf : f ≠ depositAddr) (hm : m ≠ depositAddr) :
+    MoneyInv σ s' ∧ MoneyFrame s s' := by
   unfold sendCoinFromAccountToModule at h
   split at h
   · rw [pure_eq_ok] at h; subst h; exact ⟨hi, rfl⟩
@@ -108,7 +109,7 @@ theorem sendCoinFromAccountToModule_inv {s s' : State} {f m : Addr} {c : Coin}
 /-! ### handlers that do not move money: the view is unchanged -/
 
 theorem provRegister_inv {s s' : State} {frm : Addr} {n i w d : Bytes} (h : provRegister s frm n i w d = .ok s')
-    (hi : MoneyInv s) (hf : frm ≠ depositAddr) : MoneyInv s' := by
+    (hi : MoneyInv σ s) (hf : frm ≠ depositAddr) : MoneyInv σ s' := by
   unfold provRegister at h
   simp only [bind_eq_ok, pure_eq_ok, require_eq_ok] at h
   obtain ⟨_, _, s1, h1, s2, h2, rfl⟩ := h
@@ -116,7 +117,7 @@ theorem provRegister_inv {s s' : State} {frm : Addr} {n i w d : Bytes} (h : prov
   exact MoneyInv.of_view (s := s1) (by rw [← setProvider_view h2]; rfl) i1
 
 theorem provUpdate_inv {s s' : State} {frm : Addr} {n i w d : Bytes} {st : Status} (h : provUpdate s frm n i w d st = .ok s')
-    (hi : MoneyInv s) : MoneyInv s' := by
+    (hi : MoneyInv σ s) : MoneyInv σ s' := by
   unfold provUpdate at h
   simp only [bind_eq_ok, pure_eq_ok, orReject_eq_ok] at h
   obtain ⟨p, _, s3, h3, rfl⟩ := h
@@ -126,7 +127,7 @@ theorem provUpdate_inv {s s' : State} {frm : Addr} {n i w d : Bytes} {st : Statu
   split <;> split <;> rfl
 
 theorem nodeRegister_inv {s s' : State} {frm : Addr} {gb hr : Coins} {url : Bytes} (h : nodeRegister s frm gb hr url = .ok s')
-    (hi : MoneyInv s) (hf : frm ≠ depositAddr) : MoneyInv s' := by
+    (hi : MoneyInv σ s) (hf : frm ≠ depositAddr) : MoneyInv σ s' := by
   unfold nodeRegister at h
   simp only [bind_eq_ok, pure_eq_ok, require_eq_ok] at h
   obtain ⟨_, _, _, _, _, _, s1, h1, s2, h2, rfl⟩ := h
@@ -134,14 +135,14 @@ theorem nodeRegister_inv {s s' : State} {frm : Addr} {gb hr : Coins} {url : Byte
   exact MoneyInv.of_view (s := s1) (by rw [← setNode_view h2]; rfl) i1
 
 theorem nodeUpdate_inv {s s' : State} {frm : Addr} {gb hr : Option Coins} {url : Bytes} (h : nodeUpdate s frm gb hr url = .ok s')
-    (hi : MoneyInv s) : MoneyInv s' := by
+    (hi : MoneyInv σ s) : MoneyInv σ s' := by
   unfold nodeUpdate at h
   simp only [bind_eq_ok, pure_eq_ok, require_eq_ok, orReject_eq_ok] at h
   obtain ⟨_, _, _, _, n, _, s1, h1, rfl⟩ := h
   exact MoneyInv.of_view (s := s) (by rw [← setNode_view h1]; rfl) hi
 
 theorem nodeStatus_inv {s s' : State} {frm : Addr} {st : Status} (h : nodeStatus s frm st = .ok s')
-    (hi : MoneyInv s) : MoneyInv s' := by
+    (hi : MoneyInv σ s) : MoneyInv σ s' := by
   unfold nodeStatus at h
   simp only [bind_eq_ok, pure_eq_ok, orReject_eq_ok] at h
   obtain ⟨n, _, s5, h5, rfl⟩ := h
@@ -156,7 +157,7 @@ theorem view_insertSub (s : State) (sub : Sub) : view (insertSub s sub) = view s
   unfold insertSub; cases sub.kind <;> rfl
 
 theorem createNodeSubGB_inv {s : State} {acc node : Addr} {n : Node} {gb : Int} {denom : Denom} {r : State × Sub}
-    (h : createNodeSubGB s acc node n gb denom = .ok r) (hi : MoneyInv s) (ha : acc ≠ depositAddr) : MoneyInv r.1 := by
+    (h : createNodeSubGB s acc node n gb denom = .ok r) (hi : MoneyInv σ s) (ha : acc ≠ depositAddr) : MoneyInv σ r.1 := by
   unfold createNodeSubGB at h
   simp only [bind_eq_ok, pure_eq_ok, orReject_eq_ok] at h
   obtain ⟨price, _, bytes, _, amt, _, dep, _, s1, h1, granted, _, rfl⟩ := h
@@ -164,7 +165,7 @@ theorem createNodeSubGB_inv {s : State} {acc node : Addr} {n : Node} {gb : Int} 
   exact MoneyInv.of_view (s := s1) (by simp only [view_emit, view_setAllocation, view_insertSub]) i1
 
 theorem createNodeSubHr_inv {s : State} {acc node : Addr} {n : Node} {hr : Int} {denom : Denom} {r : State × Sub}
-    (h : createNodeSubHr s acc node n hr denom = .ok r) (hi : MoneyInv s) (ha : acc ≠ depositAddr) : MoneyInv r.1 := by
+    (h : createNodeSubHr s acc node n hr denom = .ok r) (hi : MoneyInv σ s) (ha : acc ≠ depositAddr) : MoneyInv σ r.1 := by
   unfold createNodeSubHr at h
   simp only [bind_eq_ok, pure_eq_ok, orReject_eq_ok] at h
   obtain ⟨price, _, amt, _, dep, _, s1, h1, pa, _, hourly, _, rfl⟩ := h
@@ -172,7 +173,7 @@ theorem createNodeSubHr_inv {s : State} {acc node : Addr} {n : Node} {hr : Int} 
   exact MoneyInv.of_view (s := s1) (by simp only [view_insertPayout, view_insertSub]) i1
 
 theorem nodeSubscribe_inv {s s' : State} {frm node : Addr} {gb hr : Int} {denom : Denom}
-    (h : nodeSubscribe s frm node gb hr denom = .ok s') (hi : MoneyInv s) (hf : frm ≠ depositAddr) : MoneyInv s' := by
+    (h : nodeSubscribe s frm node gb hr denom = .ok s') (hi : MoneyInv σ s) (hf : frm ≠ depositAddr) : MoneyInv σ s' := by
   unfold nodeSubscribe createSubscriptionForNode at h
   simp only [bind_eq_ok, pure_eq_ok, require_eq_ok, orReject_eq_ok] at h
   obtain ⟨_, _, _, _, r, ⟨n, _, _, _, hr'⟩, rfl⟩ := h
@@ -212,8 +213,8 @@ theorem setPlan_money {s s' : State} {p : Plan} (h : setPlan s p = .ok s') :
 
 /-- A state whose money tables are those of `s` and whose plans all have acceptable providers. -/
 theorem MoneyInv.of_money {s s' : State} (hb : s'.bank = s.bank) (hs : s'.supply = s.supply) (hd : s'.deposits = s.deposits)
-    (hp : ∀ id p, (s'.planActive.get id = some p ∨ s'.planInactive.get id = some p) → p.prov ≠ depositAddr) (hi : MoneyInv s) : MoneyInv s' := by
-  refine ⟨?_, ?_, ?_, ?_, ?_, hp⟩
+    (hp : ∀ id p, (s'.planActive.get id = some p ∨ s'.planInactive.get id = some p) → p.prov ≠ depositAddr) (hi : MoneyInv σ s) : MoneyInv σ s' := by
+  refine ⟨?_, ?_, ?_, ?_, ?_, hp, hs.trans hi.supplyEq⟩
   · intro d
     have := hi.backed d
     unfold balance totalDeposits at *
@@ -227,7 +228,7 @@ theorem MoneyInv.of_money {s s' : State} (hb : s'.bank = s.bank) (hs : s'.supply
     rw [hb, hs]; exact this
 
 theorem planCreate_inv {s s' : State} {frm : Addr} {dur : Dur} {gb : Int} {prices : Coins}
-    (h : planCreate s frm dur gb prices = .ok s') (hi : MoneyInv s) (hf : frm ≠ depositAddr) : MoneyInv s' := by
+    (h : planCreate s frm dur gb prices = .ok s') (hi : MoneyInv σ s) (hf : frm ≠ depositAddr) : MoneyInv σ s' := by
   unfold planCreate at h
   simp only [bind_eq_ok, pure_eq_ok, require_eq_ok] at h
   obtain ⟨_, _, s1, h1, rfl⟩ := h
@@ -240,7 +241,7 @@ theorem planCreate_inv {s s' : State} {frm : Addr} {dur : Dur} {gb : Int} {price
   · exact hi.provOK id q (Or.inr e)
 
 theorem planStatus_inv {s s' : State} {frm : Addr} {id : Nat} {st : Status}
-    (h : planStatus s frm id st = .ok s') (hi : MoneyInv s) : MoneyInv s' := by
+    (h : planStatus s frm id st = .ok s') (hi : MoneyInv σ s) : MoneyInv σ s' := by
   unfold planStatus at h
   simp only [bind_eq_ok, pure_eq_ok, require_eq_ok, orReject_eq_ok] at h
   obtain ⟨p, hp, _, _, s3, h3, rfl⟩ := h
@@ -265,14 +266,14 @@ theorem planStatus_inv {s s' : State} {frm : Addr} {id : Nat} {st : Status}
         | (simp only [Tbl.get_erase] at e; split at e <;> first | contradiction | exact Or.inr e)
 
 theorem planLink_inv {s s' : State} {frm : Addr} {id : Nat} {node : Addr}
-    (h : planLink s frm id node = .ok s') (hi : MoneyInv s) : MoneyInv s' := by
+    (h : planLink s frm id node = .ok s') (hi : MoneyInv σ s) : MoneyInv σ s' := by
   unfold planLink at h
   simp only [bind_eq_ok, pure_eq_ok, require_eq_ok, orReject_eq_ok] at h
   obtain ⟨p, _, _, _, _, _, rfl⟩ := h
   exact MoneyInv.of_view (s := s) rfl hi
 
 theorem planUnlink_inv {s s' : State} {frm : Addr} {id : Nat} {node : Addr}
-    (h : planUnlink s frm id node = .ok s') (hi : MoneyInv s) : MoneyInv s' := by
+    (h : planUnlink s frm id node = .ok s') (hi : MoneyInv σ s) : MoneyInv σ s' := by
   unfold planUnlink at h
   simp only [bind_eq_ok, pure_eq_ok, require_eq_ok, orReject_eq_ok] at h
   obtain ⟨p, _, _, _, rfl⟩ := h
@@ -280,7 +281,7 @@ theorem planUnlink_inv {s s' : State} {frm : Addr} {id : Nat} {node : Addr}
 
 
 theorem planSubscribe_inv {s s' : State} {frm : Addr} {id : Nat} {denom : Denom}
-    (h : planSubscribe s frm id denom = .ok s') (hi : MoneyInv s) (hf : frm ≠ depositAddr) : MoneyInv s' := by
+    (h : planSubscribe s frm id denom = .ok s') (hi : MoneyInv σ s) (hf : frm ≠ depositAddr) : MoneyInv σ s' := by
   unfold planSubscribe createSubscriptionForPlan at h
   simp only [bind_eq_ok, pure_eq_ok, require_eq_ok, requireP_eq_ok, orReject_eq_ok] at h
   obtain ⟨r, ⟨plan, hplan, _, _, price, _, reward, _, s1, h1, payAmt, _, _, _, s2, h2, granted, _, rfl⟩, rfl⟩ := h
@@ -321,7 +322,7 @@ theorem detachPayout_view {s s' : State} {sub : Sub} {b : Bool} (h : detachPayou
 
 theorem view_subToPending (s : State) (sub : Sub) (d : Dur) : view (subToPending s sub d).1 = view s := rfl
 
-theorem subCancel_inv {s s' : State} {frm : Addr} {id : Nat} (h : subCancel s frm id = .ok s') (hi : MoneyInv s) : MoneyInv s' := by
+theorem subCancel_inv {s s' : State} {frm : Addr} {id : Nat} (h : subCancel s frm id = .ok s') (hi : MoneyInv σ s) : MoneyInv σ s' := by
   unfold subCancel at h
   simp only [bind_eq_ok, require_eq_ok, orReject_eq_ok] at h
   obtain ⟨sub, _, _, _, _, _, s1, h1, h2⟩ := h
@@ -330,7 +331,7 @@ theorem subCancel_inv {s s' : State} {frm : Addr} {id : Nat} (h : subCancel s fr
   rfl
 
 theorem subAllocate_inv {s s' : State} {frm toA : Addr} {id : Nat} {bytes : Int}
-    (h : subAllocate s frm id toA bytes = .ok s') (hi : MoneyInv s) : MoneyInv s' := by
+    (h : subAllocate s frm id toA bytes = .ok s') (hi : MoneyInv σ s) : MoneyInv σ s' := by
   unfold subAllocate at h
   simp only [bind_eq_ok, pure_eq_ok, require_eq_ok, orReject_eq_ok] at h
   obtain ⟨sub, _, _, _, _, _, fa, _, g, _, u, _, av, _, _, _, fg, _, _, _, _, _, rfl⟩ := h
@@ -339,14 +340,14 @@ theorem subAllocate_inv {s s' : State} {frm toA : Addr} {id : Nat} {bytes : Int}
   split <;> rfl
 
 theorem sessStart_inv {s s' : State} {frm : TextAddr} {id : Nat} {node : Addr}
-    (h : sessStart s frm id node = .ok s') (hi : MoneyInv s) : MoneyInv s' := by
+    (h : sessStart s frm id node = .ok s') (hi : MoneyInv σ s) : MoneyInv σ s' := by
   unfold sessStart at h
   simp only [bind_eq_ok, pure_eq_ok, require_eq_ok, orReject_eq_ok] at h
   obtain ⟨sub, _, _, _, n, _, _, _, _, _, _, _, latest, _, _, _, rfl⟩ := h
   exact MoneyInv.of_view (s := s) rfl hi
 
 theorem sessUpdate_inv {s s' : State} {frm : Addr} {id : Nat} {up down dur : Int} {sig : SigSpec}
-    (h : sessUpdate s frm id up down dur sig = .ok s') (hi : MoneyInv s) : MoneyInv s' := by
+    (h : sessUpdate s frm id up down dur sig = .ok s') (hi : MoneyInv σ s) : MoneyInv σ s' := by
   unfold sessUpdate at h
   simp only [bind_eq_ok, pure_eq_ok, require_eq_ok, orReject_eq_ok] at h
   obtain ⟨x, _, _, _, _, _, _, _, rfl⟩ := h
@@ -354,7 +355,7 @@ theorem sessUpdate_inv {s s' : State} {frm : Addr} {id : Nat} {up down dur : Int
   simp only [view_emit]
   split <;> rfl
 
-theorem sessEnd_inv {s s' : State} {frm : Addr} {id : Nat} (h : sessEnd s frm id = .ok s') (hi : MoneyInv s) : MoneyInv s' := by
+theorem sessEnd_inv {s s' : State} {frm : Addr} {id : Nat} (h : sessEnd s frm id = .ok s') (hi : MoneyInv σ s) : MoneyInv σ s' := by
   unfold sessEnd at h
   simp only [bind_eq_ok, pure_eq_ok, require_eq_ok, orReject_eq_ok] at h
   obtain ⟨x, _, _, _, _, _, rfl⟩ := h
@@ -374,14 +375,14 @@ theorem supplyOf_setSupply (s : State) (d d' : Denom) (v : Int) :
 
 /-- `MintCoins` into a module account other than the escrow: supply and the sum of balances grow by
 the same amount; nothing else changes. -/
-theorem mintCoins_inv {s s' : State} {m : Addr} {c : Coin} (h : mintCoins s m c = .ok s') (hi : MoneyInv s)
-    (hm : m ≠ depositAddr) : MoneyInv s' ∧ (∀ d, supplyOf s' d = supplyOf s d + (if c.denom = d then c.amount else 0)) := by
+theorem mintCoins_inv {s s' : State} {m : Addr} {c : Coin} (h : mintCoins s m c = .ok s') (hi : MoneyInv σ s)
+    (hm : m ≠ depositAddr) : MoneyInv s'.supply s' ∧ (∀ d, supplyOf s' d = supplyOf s d + (if c.denom = d then c.amount else 0)) := by
   unfold mintCoins at h
   simp only [bind_eq_ok, pure_eq_ok] at h
   obtain ⟨nb, hnb, ns, hns, rfl⟩ := h
   have e1 := SInt.add_eq_ok hnb
   have e2 := SInt.add_eq_ok hns
-  refine ⟨⟨?_, ?_, ?_, ?_, ?_, ?_⟩, ?_⟩
+  refine ⟨⟨?_, ?_, ?_, ?_, ?_, ?_, rfl⟩, ?_⟩
   · intro d
     show balance (setBalance s m c.denom nb) depositAddr d = totalDeposits s d
     rw [balance_setBalance, ← hi.backed d]
@@ -404,7 +405,7 @@ theorem mintCoins_inv {s s' : State} {m : Addr} {c : Coin} (h : mintCoins s m c 
     · simp [hd]; rfl
 
 theorem swap_inv {s s' : State} {frm recv : Addr} {hash : Bytes} {amt : Int}
-    (h : swap s frm hash recv amt = .ok s') (hi : MoneyInv s) : MoneyInv s' := by
+    (h : swap s frm hash recv amt = .ok s') (hi : MoneyInv σ s) : MoneyInv s'.supply s' := by
   unfold swap sendModuleToAccount at h
   simp only [bind_eq_ok, pure_eq_ok, require_eq_ok] at h
   obtain ⟨_, _, _, _, _, _, q, _, coin, _, s1, h1, s2, h2, rfl⟩ := h
@@ -414,6 +415,215 @@ theorem swap_inv {s s' : State} {frm recv : Addr} {hash : Bytes} {amt : Int}
   · simp only [hb, if_false] at h2
     have hr : recv ≠ depositAddr := by
       intro e; rw [e] at hb; exact hb isBlocked_depositAddr
-    exact MoneyInv.of_view (s := s2) rfl (sendCoins_inv h2 i1 (by decide) hr)
+    have i2 := sendCoins_inv h2 i1 (by decide) hr
+    have e : s2.supply = s1.supply := i2.supplyEq
+    exact MoneyInv.of_view (s := s2) rfl (e ▸ i2)
+
+
+/-! ### hooks -/
+
+theorem foldlM_inv {α : Type} (P : State → Prop) (f : State → α → M State)
+    (hf : ∀ s a s', f s a = .ok s' → P s → P s') (l : List α) (s s' : State)
+    (h : l.foldlM f s = .ok s') (hp : P s) : P s' := by
+  induction l generalizing s with
+  | nil => simp only [List.foldlM, pure_eq_ok] at h; rw [← h]; exact hp
+  | cons a rest ih =>
+    simp only [List.foldlM, bind_eq_ok] at h
+    obtain ⟨s1, h1, h2⟩ := h
+    exact ih s1 h2 (hf s a s1 h1 hp)
+
+theorem foldl_inv {α : Type} (P : State → Prop) (f : State → α → State)
+    (hf : ∀ s a, P s → P (f s a)) (l : List α) (s : State) (hp : P s) : P (l.foldl f s) := by
+  induction l generalizing s with
+  | nil => exact hp
+  | cons a rest ih => exact ih (f s a) (hf s a hp)
+
+theorem sweepDenom_inv (s : State) (d : Denom) (hi : MoneyInv σ s) : MoneyInv σ (sweepDenom s d) := by
+  unfold sweepDenom
+  have hn1 := bankNodup_setBalance hi.bankNodup feeCollectorAddr d 0
+  refine ⟨?_, hi.depNodup, hi.depNonneg, bankNodup_setBalance hn1 _ _ _, ?_, hi.provOK, hi.supplyEq⟩
+  · intro d'
+    rw [balance_setBalance, balance_setBalance]
+    have h1 : ¬ (distrAddr = depositAddr ∧ d = d') := by intro h; exact absurd h.1 (by decide)
+    have h2 : ¬ (feeCollectorAddr = depositAddr ∧ d = d') := by intro h; exact absurd h.1 (by decide)
+    simp only [h1, h2, if_false]
+    exact hi.backed d'
+  · intro d'
+    have hbd : balance (setBalance s feeCollectorAddr d 0) distrAddr d = balance s distrAddr d := by
+      rw [balance_setBalance]
+      have h3 : ¬ (feeCollectorAddr = distrAddr) := by decide
+      simp [h3]
+    rw [bankTotal_setBalance hn1, bankTotal_setBalance hi.bankNodup, hbd]
+    have := hi.supplyOK d'
+    show supplyOf s d' = _
+    by_cases hd : d = d'
+    · subst hd; simp only [if_true]; omega
+    · simp only [hd, if_false]; omega
+
+theorem distrSweep_inv (s : State) (hi : MoneyInv σ s) : MoneyInv σ (distrSweep s) := by
+  unfold distrSweep
+  exact foldl_inv (MoneyInv σ) sweepDenom (fun s d h => sweepDenom_inv s d h) _ s hi
+
+theorem view_mintBeginBlock_go (l : List Inflation) (s : State) : view (mintBeginBlock.go s l) = view s := by
+  induction l generalizing s with
+  | nil => rfl
+  | cons item rest ih =>
+    unfold mintBeginBlock.go
+    split
+    · rfl
+    · rw [ih]; rfl
+
+theorem mintBeginBlock_inv (s : State) (hi : MoneyInv σ s) : MoneyInv σ (mintBeginBlock s) :=
+  MoneyInv.of_view (view_mintBeginBlock_go _ s) hi
+
+theorem payoutStep_inv {s s' : State} {k : Time × Nat} (h : payoutStep s k = .ok s') (hi : MoneyInv σ s) : MoneyInv σ s' := by
+  unfold payoutStep at h
+  simp only [bind_eq_ok, pure_eq_ok, requireP_eq_ok, orPanic_eq_ok] at h
+  obtain ⟨item, _, reward, _, s2, h2, payAmt, _, _, _, s3, h3, rfl⟩ := h
+  have i1 : MoneyInv σ { s with payQ := s.payQ.erase (item.nextAt, item.id) } := MoneyInv.of_view (s := s) rfl hi
+  have i2 := (sendCoinFromDepositToModule_inv h2 i1 (by decide)).1
+  have i3 := (sendCoinFromDepositToAccount_inv h3 i2).1
+  refine MoneyInv.of_view (s := s3) ?_ i3
+  split <;> rfl
+
+theorem beginBlock_inv {s s' : State} {t : Time} (h : beginBlock s t = .ok s') (hi : MoneyInv σ s) : MoneyInv σ s' := by
+  unfold beginBlock haltOf at h
+  split at h <;> try contradiction
+  rename_i s'' hs
+  simp only [Except.ok.injEq] at h
+  subst h
+  unfold subscriptionBeginBlock at hs
+  refine foldlM_inv (MoneyInv σ) _ ?_ _ _ _ hs ?_
+  · intro s0 k s1 h1 hp
+    rw [panicIfErr_eq_ok] at h1
+    exact payoutStep_inv h1 hp
+  · exact distrSweep_inv _ (mintBeginBlock_inv _ (MoneyInv.of_view (s := s) rfl hi))
+
+
+/-! ### end of block -/
+
+theorem nodeSweep_view {s s' : State} (h : nodeSweep s = .ok s') : view s' = view s := by
+  unfold nodeSweep at h
+  split at h
+  · rw [pure_eq_ok] at h; rw [h]
+  · refine foldlM_view _ ?_ _ s s' h
+    intro s0 a s1 h1
+    simp only [bind_eq_ok, pure_eq_ok, orPanic_eq_ok] at h1
+    obtain ⟨item, _, s2, h2, rfl⟩ := h1
+    rw [view_emit, setNode_view h2]
+
+theorem nodeExpire_view {s s' : State} (h : nodeExpire s = .ok s') : view s' = view s := by
+  unfold nodeExpire at h
+  refine foldlM_view _ ?_ _ s s' h
+  intro s0 k s1 h1
+  unfold nodeExpireStep at h1
+  simp only [bind_eq_ok, pure_eq_ok, orPanic_eq_ok] at h1
+  obtain ⟨item, _, s3, h3, rfl⟩ := h1
+  rw [view_emit, setNode_view h3]; rfl
+
+theorem settleSession_inv {s s' : State} {x : Session} {acc node : Addr} {dep : Coin} {gb b a : Int}
+    (h : settleSession s x acc node dep gb b a = .ok s') (hi : MoneyInv σ s) : MoneyInv σ s' := by
+  unfold settleSession at h
+  simp only [bind_eq_ok, pure_eq_ok, requireP_eq_ok] at h
+  obtain ⟨price, _, prev, _, cur, _, payAmt, _, payment, _, reward, _, s1, h1, netAmt, _, _, _, s2, h2, rfl⟩ := h
+  have i1 := (sendCoinFromDepositToModule_inv h1 hi (by decide)).1
+  have i2 := (sendCoinFromDepositToAccount_inv h2 i1).1
+  exact MoneyInv.of_view (s := s2) rfl i2
+
+theorem sessionInactiveHook_inv {s s' : State} {id : Nat} {acc node : Addr} {bytes : Int}
+    (h : sessionInactiveHook s id acc node bytes = .ok s') (hi : MoneyInv σ s) : MoneyInv σ s' := by
+  unfold sessionInactiveHook at h
+  simp only [bind_eq_ok, require_eq_ok, orReject_eq_ok] at h
+  obtain ⟨x, _, _, _, sub, _, h⟩ := h
+  split at h
+  · rw [pure_eq_ok] at h; rw [← h]; exact hi
+  · simp only [bind_eq_ok, orReject_eq_ok] at h
+    obtain ⟨a, _, used, _, h⟩ := h
+    split at h
+    · exact settleSession_inv h (MoneyInv.of_view (s := s) rfl hi)
+    · rw [pure_eq_ok] at h; rw [← h]; exact MoneyInv.of_view (s := s) rfl hi
+
+theorem sessionStep_inv {s s' : State} {k : Time × Nat} (h : sessionStep s k = .ok s') (hi : MoneyInv σ s) : MoneyInv σ s' := by
+  unfold sessionStep at h
+  simp only [bind_eq_ok, orPanic_eq_ok] at h
+  obtain ⟨item, _, h⟩ := h
+  split at h
+  · rw [pure_eq_ok] at h; rw [← h]; exact MoneyInv.of_view (s := s) rfl hi
+  · simp only [bind_eq_ok, pure_eq_ok, panicIfErr_eq_ok] at h
+    obtain ⟨bytes, _, s2, h2, rfl⟩ := h
+    exact MoneyInv.of_view (s := s2) rfl (sessionInactiveHook_inv h2 (MoneyInv.of_view (s := s) rfl hi))
+
+theorem refundSub_inv {s s' : State} {item : Sub} (h : refundSub s item = .ok s') (hi : MoneyInv σ s) : MoneyInv σ s' := by
+  unfold refundSub at h
+  split at h
+  · simp only [bind_eq_ok] at h
+    obtain ⟨s1, h1, h2⟩ := h
+    have i1 : MoneyInv σ s1 := by
+      split at h1
+      · unfold refundGB at h1
+        simp only [bind_eq_ok, pure_eq_ok, orPanic_eq_ok, panicIfErr_eq_ok] at h1
+        obtain ⟨price, _, a, _, paid, _, ra, _, refund, _, s2, h2', rfl⟩ := h1
+        exact MoneyInv.of_view (s := s2) rfl (subtractDeposit_inv h2' hi).1
+      · rw [pure_eq_ok] at h1; rw [← h1]; exact hi
+    split at h2
+    · unfold refundHr at h2
+      simp only [bind_eq_ok, pure_eq_ok, orPanic_eq_ok, panicIfErr_eq_ok] at h2
+      obtain ⟨p, _, ra, _, refund, _, s2, h2', rfl⟩ := h2
+      exact MoneyInv.of_view (s := s2) rfl (subtractDeposit_inv h2' i1).1
+    · rw [pure_eq_ok] at h2; rw [← h2]; exact i1
+  · rw [pure_eq_ok] at h; rw [← h]; exact hi
+
+theorem view_removeAllocs (l : List Addr) (s : State) (id : Nat) : view (removeAllocs s id l) = view s := by
+  unfold removeAllocs
+  induction l generalizing s with
+  | nil => rfl
+  | cons a rest ih => rw [List.foldl_cons, ih]; rfl
+
+theorem view_removeSubRecords (s : State) (item : Sub) : view (removeSubRecords s item) = view s := by
+  unfold removeSubRecords
+  cases item.kind with
+  | node n g h d => rfl
+  | plan pid dn =>
+    simp only [view_emit]
+    exact (rfl : view { (removeAllocs _ _ _) with subs := _ } = view (removeAllocs _ _ _)).trans (view_removeAllocs _ _ _)
+
+theorem removePayout_view {s s' : State} {item : Sub} (h : removePayout s item = .ok s') : view s' = view s := by
+  unfold removePayout at h
+  split at h
+  · simp only [bind_eq_ok, pure_eq_ok, orPanic_eq_ok] at h
+    obtain ⟨p, _, rfl⟩ := h
+    rfl
+  · rw [pure_eq_ok] at h; rw [h]
+
+theorem subscriptionStep_inv {s s' : State} {d : Dur} {k : Time × Nat} (h : subscriptionStep d s k = .ok s')
+    (hi : MoneyInv σ s) : MoneyInv σ s' := by
+  unfold subscriptionStep at h
+  simp only [bind_eq_ok, orPanic_eq_ok] at h
+  obtain ⟨item, _, h⟩ := h
+  split at h
+  · simp only [bind_eq_ok, panicIfErr_eq_ok] at h
+    obtain ⟨s2, h2, h3⟩ := h
+    refine MoneyInv.of_view (s := s) ?_ hi
+    rw [detachPayout_view h3, view_subToPending, subscriptionInactivePendingHook_view h2]; rfl
+  · simp only [bind_eq_ok] at h
+    obtain ⟨s2, h2, h3⟩ := h
+    have i2 := refundSub_inv h2 (MoneyInv.of_view (s := s) rfl hi)
+    exact MoneyInv.of_view (s := s2) (by rw [removePayout_view h3, view_removeSubRecords]) i2
+
+theorem endBlock_inv {s s' : State} (h : endBlock s = .ok s') (hi : MoneyInv σ s) : MoneyInv σ s' := by
+  unfold endBlock haltOf at h
+  split at h <;> try contradiction
+  rename_i s2 hs
+  split at hs <;> try contradiction
+  rename_i s3 hs3
+  simp only [Except.ok.injEq] at hs h
+  subst hs; subst h
+  unfold vpnEndBlock nodeEndBlock at hs3
+  simp only [bind_eq_ok] at hs3
+  obtain ⟨s1, ⟨sa, ha, hb⟩, sb, hc, hd⟩ := hs3
+  have i1 : MoneyInv σ s1 := MoneyInv.of_view (s := s) (by rw [nodeExpire_view hb, nodeSweep_view ha]; rfl) hi
+  have i2 : MoneyInv σ sb := foldlM_inv (MoneyInv σ) _ (fun s0 k s1 h1 hp => sessionStep_inv h1 hp) _ _ _ hc i1
+  have i3 : MoneyInv σ s3 := foldlM_inv (MoneyInv σ) _ (fun s0 k s1 h1 hp => subscriptionStep_inv h1 hp) _ _ _ hd i2
+  exact MoneyInv.of_view (s := s3) rfl i3
 
 end Hub.Model
